@@ -21,8 +21,8 @@ OpenOkArgs  == {"ok_zip_slow", "ok_zip_slow_onepass", "ok", "ok_sort", "ok_nocol
 OpenArchiveEmptyArgs == {"zip_glob_none", "zip_nodlt", "zip_nodlt_glob", "fakezip"}
 HugeOpenArgs == {"ok_huge", "ok_huge_onepass"}     \* a log of > 512 Ki messages (more than the bounded channels hold); scripted sessions only
 OnePassOpenArgs == {"ok_onepass", "ok_huge_onepass", "ok_zip_slow_onepass"}
-\* ok_zip_slow..: the same archive named 120 times - its extraction (sequential, after the reply) stays pending for several
-\* 100 ms, so that the commands behind the open meet a file context without parser thread; scripted sessions only
+\* ok_zip_slow..: an archive with a 96 MiB padding member, named 3 times - its extraction (sequential, after the reply) stays
+\* pending for several 100 ms, so that the commands behind the open meet a file context without parser thread; scripted sessions only
 OpenBadArgs == {"noarg", "badjson", "nofiles", "emptyfiles", "fileswrongtype", "filesnonstring", "missingfile",
                 "nodlt", "badcollect", "pluginswrongtype", "pluginnotobj", "nonarchive_bang", "missingzip_bang"}
 \* frame size classes: the same well-formed command padded to 1 KiB / 1 MiB / 15 MiB / 17 MiB / 64 MiB (JSON white space resp. a long
